@@ -12,7 +12,9 @@ RULE = (
     "strict parser of the same dialect. distinct = distinct (dialect, case "
     "seed); non-trivial = every generated module (>=1 statement). Modules "
     "holding a value the dialect cannot represent are judged on the refusal "
-    "type only."
+    "type only. Plus a deterministic sweep: every hazard string (~110) x 4 "
+    "encoders x widths {20,40,80} x short/long key x 5-6 contexts (top level, "
+    "in sequences, nested sequence, set, quantity) x nesting level {0,2}."
 )
 
 
@@ -43,12 +45,87 @@ def shard(i, n, tier, seed, rec, hb, check=CHECK, reader_of=reader_for):
                     run_case(rec, pvl, dialect, reader_of(dialect), key, rng, check)
             except common.CaseTimeout:
                 rec.inconc(f"CPU budget exceeded on case {key}")
+    hazard_sweep(rec, pvl, check, reader_of, i, n, tier)
+
+
+HAZARDS = None
+
+
+def hazard_values(col):
+    """Every hazard string of the generator's tables, one by one."""
+    from .. import gen_values as gv
+    words = []
+    words += gv.KEYWORD_LIKE + gv.NUMBER_LIKE + gv.TIME_LIKE + gv.BASED_LIKE
+    words += ["", "x", "two words", " lead", "trail ", "a  b", "a\tb", "a\nb",
+              "a\r\nb", "a-\nb", "a-\n   b", "\nx", "x\n", "it's", 'say "x"',
+              "/* c */", "a/*b", "a*/", "# c", "a #b", "a/b", "a*b", "v-", "-", "--",
+              "-v", "a-b", "a+b", "+", "g++", "a&b", "a<b", "a>b", "{x}", "(x)", "a,b",
+              "a=b", "a;b", "a!b", "a%b", "a~b", "a|b", "[x]", "a.b", "ns:id", "^p",
+              "caf\xe9", "\xa0x", "x" * 35, "word " * 12, "A_LONG_IDENTIFIER_" * 4,
+              "end_group", "Begin_Object", "2001-01-01T00:00:60", "1e", "e5", "0x10",
+              "1,5", "1.5.2", "12:60", "24:00", "2001-13-01", "99999999999999999999"]
+    seen = set()
+    for w in words:
+        if w not in seen:
+            seen.add(w)
+            yield w
+
+
+def hazard_sweep(rec, pvl, check, reader_of, part, nparts, tier):
+    """Deterministic: every hazard string x encoder x width x context x key."""
+    from ..gen_values import in_charset
+    from ..roundtrip import describe
+    col = pvl.collections
+    n = 0
+    for dialect in DIALECTS:
+        for width in (20, 40, 80):
+            for key in ("k", "A_RATHER_LONG_PARAMETER_NAME_30"):
+                for s in hazard_values(col):
+                    if not in_charset(dialect, s) or ('"' in s and "'" in s):
+                        continue
+                    contexts = {
+                        "top": s, "seq": ["x", s, 3], "seq-first": [s, 1],
+                        "seq-nested": [[1, s], [2, "y"]],
+                        "set": {s},
+                    }
+                    if dialect in ("PVL", "ISIS"):
+                        contexts["quantity"] = col.Quantity(s, "m")
+                    for cname, value in contexts.items():
+                        for level in (0, 2):
+                            n += 1
+                            if n % nparts != part:
+                                continue
+                            cfg = {"width": width, "indent": 2,
+                                   "aggregation_end": True}
+                            m = wrap_levels(col, key, value, level)
+                            o = roundtrip(pvl, dialect, cfg, m, reader_of(dialect))
+                            rec.case((check, "sweep", dialect, width, key, s, cname,
+                                      level), True)
+                            rec.count(f"sweep[{dialect}][{o.kind}]")
+                            if o.bad:
+                                big = dict(cfg, width=100000)
+                                ob = roundtrip(pvl, dialect, big,
+                                               wrap_levels(col, key, value, level),
+                                               reader_of(dialect))
+                                op = roundtrip(pvl, dialect, cfg,
+                                               wrap_levels(col, "K", value, 0),
+                                               reader_of(dialect))
+                                rec.violation(
+                                    check, dialect, o.kind,
+                                    {"value": describe(s, dialect), "context": cname,
+                                     "wrap_dependent": not ob.bad,
+                                     "name_or_level_dependent": not op.bad},
+                                    {"dialect": dialect, "cfg": cfg, "name": key,
+                                     "level": level, "value": repr(value),
+                                     "text": o.text, "workload": "hazard-sweep"},
+                                    o.detail)
 
 
 def finish_kwargs(rec, tier):
     req = [f"representable[{d}]" for d in DIALECTS]
     req += [f"outcome[{d}][ok]" for d in DIALECTS]
     req += ["modules_with_duplicate_keys", "modules_with_nesting"]
+    req += [f"sweep[{d}][ok]" for d in DIALECTS]
     return dict(required_counters=req,
                 assumptions=["normalisation relation of DESIGN 3.7, implemented "
                              "without the library's decoder",
